@@ -238,7 +238,10 @@ class Engine:
             if x.len.op == 'int' and x.len.args[0] <= 16:
                 n = x.len.args[0]
                 return t.and_(t.eq(y.len, I(n)), *[t.eq(x.at(I(i)), y.at(I(i))) for i in range(n)])
-        return t.and_(t.eq(a.len, b.len), t.app('beq', t.BOOL, a.arr, a.off, b.arr, b.off, a.len))
+        # pointwise (no recursive function): both polarities are handled by the solvers (skolemisation / instantiation)
+        i = t.var('eq!', t.INT)
+        return t.and_(t.eq(a.len, b.len), t.forall([i], t.implies(t.and_(t.le(t.ZERO, i), t.lt(i, a.len)), t.eq(a.at(i), b.at(i))),
+                                                   pats=[[a.at(i)], [b.at(i)]]))
 
     def from_const(self, c, st):
         if c is None:
@@ -699,6 +702,8 @@ class Engine:
                 v = self.exc(v.name, origin='raise %s' % v.name)
             if not isinstance(v, VExc):
                 raise OutOfReach('raise of %r' % (v,))
+            if st1.excstack and v is not st1.excstack[-1] and getattr(v, 'context', None) is None and not isinstance(n.exc, ast.Name):
+                v.context = st1.excstack[-1]       # a raise statement inside a handler: the new error replaces the handled one
             return [(st1, ('raise', v))]
         return self.lift(self.ev(n.exc, st), k)
 
@@ -962,7 +967,7 @@ class Engine:
         frame_on = False
         if self.models.interface is not None and self.models.interface.loop_touches_heap(n):
             self.models.interface.havoc_heap(self, head)
-            for label, cond in self.models.interface.loop_frame_clauses(self, head):
+            for label, cond in self.models.interface.loop_frame_clauses(self, head) + self.models.interface.scope_keys_clauses(self, head, entry):
                 head.assume(cond)
             frame_on = True
         kvar = None
@@ -1050,6 +1055,8 @@ class Engine:
                             if frame_on:
                                 for label, cond in self.models.interface.loop_frame_clauses(self, st2):
                                     self.emit(st2, '%s/loop[%s]/preserve/%s' % (fname, text, label), cond, kind='loop-preserve', tags=('C17',))
+                                for label, cond in self.models.interface.scope_keys_clauses(self, st2, entry):
+                                    self.emit(st2, '%s/loop[%s]/preserve/%s' % (fname, text, label), cond, kind='loop-preserve', tags=('C07', 'C17'))
                             for loc, s0 in shorts:
                                 o2 = st2.store.get(loc)
                                 self.emit(st2, '%s/loop[%s]/preserve/no-silent-short-io' % (fname, text), t.implies(t.not_(s0), t.not_(o2.extra['__short'].t)),
